@@ -407,10 +407,14 @@ pub struct ExecResult {
 pub fn execute(p: &Program, opts: &ExecOpts) -> Result<ExecResult, Failure> {
     let res = resolve(p);
     let params = opts.params.clone().unwrap_or_else(|| p.params.clone());
-    let mut builder = Builder::seeded(1)
-        .quiet()
-        .start_time(st(p.start_ns as u128))
-        .cqueue_options(params.n, du(params.t_ns as u128));
+    let mut builder = Builder::seeded(1).quiet().start_time(st(p.start_ns as u128));
+    // the BinaryHeap build of des (harness-heap) has no calendar parameters
+    #[cfg(not(vcheck_heap_backend))]
+    {
+        builder = builder.cqueue_options(params.n, du(params.t_ns as u128));
+    }
+    #[cfg(vcheck_heap_backend)]
+    let _ = &params;
     for c in &opts.calls {
         builder = match c {
             BuilderCall::MaxItr(n) => builder.max_itr(*n),
